@@ -217,3 +217,21 @@ pub fn cut_x_u_inverse<T: Scalar, const D: usize>(
         }
     }
 }
+
+/// a further call on the same sampler configuration with explicit coordinates (no assumptions recorded)
+pub fn run_with_x<T: Scalar, const D: usize>(
+    entry: &Entry,
+    routing: &Routing,
+    kin: &Kin<T>,
+    st: &TropicalSamplingSettings,
+    x: &[T],
+) -> (Result<TropicalSampleResult<T, D>, String>, Vec<(String, Vec<T>)>) {
+    let g = entry.ograph();
+    let sampler = build::<D>(entry, &routing.sig);
+    let sh = oracle::shifts(&g, routing.tree, &routing.sig, &kin.pin, &kin.offsets);
+    let edge_data: Vec<(Option<T>, Vector<T, D>)> =
+        (0..g.ne()).map(|e| (kin.masses[e], Vector::from_array(std::array::from_fn(|d| sh[e][d])))).collect();
+    let obs = Obs { events: RefCell::new(vec![]) };
+    let res = sampler.generate_sample_from_x_space_point(x, edge_data, st, &obs).map_err(|e| format!("{:?}", e));
+    (res, obs.events.into_inner())
+}
